@@ -446,7 +446,18 @@ def w_c08b():
                 f"pattern on the target's name leaves {sorted(by_target)}, relative root with 'proj/a.py' leaves {sorted(rel)}")
 
 
+def w_c13c():
+    from .impl import DiagramRule
+
+    g = make_graph(["p", "p.a", "p.b"], [("p.a", "p.b")])
+    with Project({"d.puml": "@startuml\n[ghost]\n@enduml\n"}) as p:
+        out = _outcome(lambda: DiagramRule().from_file(p.path("d.puml")).with_base_module("p").assert_applies(g))
+    if out[0] == "PASS":
+        return "a diagram whose only component (p.ghost) is not a module of the architecture passes instead of raising a lookup error"
+
+
 WITNESSES = {
+    "F-C13c": ("C13", w_c13c),
     "F-C08b": ("C08", w_c08b),
     "F-C10e": ("C10", w_c10e),
     "F-C08a": ("C08", w_c08a),
